@@ -1,7 +1,984 @@
-//! C36: not implemented yet.
+//! C36: page write locks are mutually exclusive (PageLockManager under real threads).
+//!
+//! Real threads hammer 1-3 hot pages of one `PageLockManager` per round with page_read /
+//! page_write / page_write_multi (optionally under a table intent lock, as the module's lock
+//! hierarchy prescribes). The library announces the points between its critical sections
+//! (`turdb::verif::yield_point`); the hook registered here perturbs the schedule there
+//! (nothing / yield / spin / sleep from a per-thread PRNG) and logs (thread, point).
+//!
+//! Oracle (all harness-side, nothing read from the lock manager except the entry counts):
+//!   * occupancy per page, updated INSIDE the critical section (right after the guard is
+//!     returned, right before it is dropped): writers <= 1, writers * readers == 0, checked
+//!     at entry and at exit;
+//!   * bounded progress: a round (milliseconds of work) must finish within a generous
+//!     watchdog; first expiry => the same round seed is re-run alone; only a second expiry is
+//!     reported;
+//!   * quiescence: after every guard was dropped `verif_entry_counts()` is (0, 0).
+//! Table intent locks: the module documents IS/IX as blocking only the *table-exclusive* lock,
+//! for which no acquisition API exists, so no mutual exclusion is asserted for them; they are
+//! taken to exercise the table map and must be gone at quiescence and must never block.
+//!
+//! Besides the random rounds there are a few *directed* rounds: two threads and a hook that
+//! parks thread A at "pl.cleanup.released" until thread B holds a lock obtained through a
+//! freshly inserted map entry. They give the exact witness of the try_cleanup window.
+use crate::report::{catch, Ctx};
+use crate::rng::{fnv, Rng};
 use crate::Args;
+use parking_lot::{Mutex, RwLock};
+use serde_json::{json, Value};
+use std::cell::RefCell;
+use std::collections::HashSet;
+use std::sync::atomic::{AtomicBool, AtomicU32, AtomicU64, Ordering};
+use std::sync::mpsc;
+use std::sync::{Arc, Barrier};
+use std::time::{Duration, Instant};
+use turdb::database::page_locks::PageLockManager;
 
-pub fn run(_a: &Args) -> i32 {
-    println!("INCONCLUSIVE property=C36 reason=check not implemented yet");
-    2
+const MIRI: bool = cfg!(miri);
+
+// ---- event log -------------------------------------------------------------------------
+const EV_READ_GOT: u32 = 0; // hook "pl.read.got_entry"
+const EV_WRITE_GOT: u32 = 1; // hook "pl.write.got_entry"
+const EV_CLEANUP: u32 = 2; // hook "pl.cleanup.released"
+const EV_CALL_R: u32 = 3;
+const EV_CALL_W: u32 = 4;
+const EV_CALL_M: u32 = 5;
+const EV_ENTER_R: u32 = 6;
+const EV_EXIT_R: u32 = 7;
+const EV_ENTER_W: u32 = 8;
+const EV_EXIT_W: u32 = 9;
+const EV_DROP_DONE: u32 = 10;
+const EV_OTHER_HOOK: u32 = 11;
+const PAGE_MULTI: u32 = 0xFE;
+
+fn ev_name(k: u32) -> &'static str {
+    match k {
+        EV_READ_GOT => "yield:pl.read.got_entry",
+        EV_WRITE_GOT => "yield:pl.write.got_entry",
+        EV_CLEANUP => "yield:pl.cleanup.released",
+        EV_CALL_R => "call page_read",
+        EV_CALL_W => "call page_write",
+        EV_CALL_M => "call page_write_multi",
+        EV_ENTER_R => "HOLDS read (monitor entry)",
+        EV_EXIT_R => "about to drop read guard (monitor exit)",
+        EV_ENTER_W => "HOLDS write (monitor entry)",
+        EV_EXIT_W => "about to drop write guard (monitor exit)",
+        EV_DROP_DONE => "guard drop returned",
+        _ => "yield:other",
+    }
+}
+
+fn ev(thread: usize, kind: u32, page: u32) -> u32 {
+    ((thread as u32) << 16) | (kind << 8) | (page & 0xFF)
+}
+
+fn ev_fmt(e: u32) -> String {
+    let p = e & 0xFF;
+    let page = if p == PAGE_MULTI { "p*".to_string() } else { format!("p{}", p) };
+    format!("T{} {} {}", e >> 16, ev_name((e >> 8) & 0xFF), page)
+}
+
+// ---- round configuration ---------------------------------------------------------------
+#[derive(Clone, Debug)]
+struct Cfg {
+    nthreads: usize,
+    pages: Vec<(u32, u32)>, // (table, page_no)
+    ops: usize,
+    p_write: u64, // percent
+    p_multi: u64, // percent (only if >= 2 pages)
+    p_table: u64, // percent of ops wrapped in a table intent lock
+    // yield-hook profile: weights of nothing / yield / spin / sleep, and the forced-delay
+    // percentage at "pl.cleanup.released"
+    w: [u64; 4],
+    cleanup_bias: u64,
+    hold: u64, // 0 none, 1 light, 2 heavier holds inside the critical section
+    directed: u8, // 0 = random round; 1..=3 directed variants
+}
+
+impl Cfg {
+    fn structural_hash(&self) -> u64 {
+        let s = format!(
+            "{}|{:?}|{}|{}|{}|{}|{:?}|{}|{}|{}",
+            self.nthreads, self.pages, self.ops, self.p_write, self.p_multi, self.p_table, self.w, self.cleanup_bias, self.hold, self.directed
+        );
+        fnv(s.as_bytes())
+    }
+    fn to_json(&self) -> Value {
+        json!({"threads": self.nthreads, "pages": self.pages, "ops_per_thread": self.ops, "write_pct": self.p_write,
+               "multi_pct": self.p_multi, "table_intent_pct": self.p_table, "hook_weights_nothing_yield_spin_sleep": self.w,
+               "cleanup_delay_pct": self.cleanup_bias, "hold": self.hold, "directed": self.directed})
+    }
+}
+
+fn gen_cfg(rng: &mut Rng, thorough: bool) -> Cfg {
+    if MIRI {
+        let npages = 1 + rng.below(2) as usize;
+        return Cfg {
+            nthreads: 2 + rng.below(2) as usize,
+            pages: (0..npages).map(|i| (1, 7 + i as u32)).collect(),
+            ops: 8 + rng.below(10) as usize,
+            p_write: 70,
+            p_multi: 10,
+            p_table: 20,
+            w: [60, 40, 0, 0],
+            cleanup_bias: 50,
+            hold: 0,
+            directed: 0,
+        };
+    }
+    let nthreads = match rng.below(10) {
+        0 => 2,
+        1 => 3,
+        2..=5 => 4 + rng.below(2) as usize,
+        _ => 6 + rng.below(3) as usize,
+    };
+    let npages = match rng.below(10) {
+        0..=5 => 1,
+        6..=8 => 2,
+        _ => 3,
+    };
+    let table = 1 + rng.below(3) as u32;
+    let base = rng.below(1000) as u32;
+    let mut pages = vec![];
+    for i in 0..npages {
+        // neighbours, or pages that collide in one lock-manager shard (page_no + 256*k)
+        let p = if rng.chance(1, 3) { base + 256 * i as u32 } else { base + i as u32 };
+        let t = if rng.chance(1, 6) { table + i as u32 } else { table };
+        pages.push((t, p));
+    }
+    pages.sort();
+    pages.dedup();
+    let ops = if thorough { rng.usize(100, 400) } else { rng.usize(60, 300) };
+    let w = match rng.below(5) {
+        0 => [100, 0, 0, 0],  // no perturbation at all: the raw race
+        1 => [90, 6, 3, 1],
+        2 => [75, 12, 10, 3],
+        3 => [60, 20, 15, 5],
+        _ => [85, 10, 5, 0],
+    };
+    Cfg {
+        nthreads,
+        pages,
+        ops,
+        p_write: *rng.pick(&[100u64, 90, 70, 50, 30]),
+        p_multi: *rng.pick(&[0u64, 0, 10, 25]),
+        p_table: *rng.pick(&[0u64, 10, 50]),
+        w,
+        cleanup_bias: *rng.pick(&[0u64, 5, 20, 50]),
+        hold: rng.below(3),
+        directed: 0,
+    }
+}
+
+// ---- shared per-round state ------------------------------------------------------------
+const W_ONE: u64 = 1 << 32;
+
+#[derive(Clone, Debug)]
+struct Viol {
+    assertion: &'static str,
+    cause: &'static str,
+    at: &'static str,
+    thread: usize,
+    page: usize,
+    log_pos: usize,
+}
+
+struct Directed {
+    a_in_window: AtomicBool,
+    b_holding: AtomicBool,
+    a_done: AtomicBool,
+    window_reached: AtomicBool,
+}
+
+struct Round {
+    cfg: Cfg,
+    mgr: PageLockManager,
+    occ: Vec<AtomicU64>, // per page: writers << 32 | readers
+    intents: AtomicU64,  // IS/IX currently held (harness view; informational)
+    log: Mutex<Vec<u32>>,
+    inside: AtomicU32,       // threads currently inside a lock-manager call (acquire or guard drop)
+    overlap: AtomicU64,      // yield points reached while another thread was inside a call as well
+    hook_actions: [AtomicU64; 4],
+    viols: Mutex<Vec<Viol>>,
+    viol_total: AtomicU64,
+    barrier: Barrier,
+    cur: Vec<AtomicU64>, // per thread: op index << 8 | phase, for the stuck report
+    ops_done: AtomicU64,
+    directed: Directed,
+}
+
+impl Round {
+    fn new(cfg: Cfg) -> Round {
+        let n = cfg.nthreads;
+        let np = cfg.pages.len();
+        let cap = if cfg.directed != 0 { 64 } else { n * cfg.ops * 10 + 64 };
+        Round {
+            mgr: PageLockManager::new(),
+            occ: (0..np).map(|_| AtomicU64::new(0)).collect(),
+            intents: AtomicU64::new(0),
+            log: Mutex::new(Vec::with_capacity(cap)),
+            inside: AtomicU32::new(0),
+            overlap: AtomicU64::new(0),
+            hook_actions: [AtomicU64::new(0), AtomicU64::new(0), AtomicU64::new(0), AtomicU64::new(0)],
+            viols: Mutex::new(vec![]),
+            viol_total: AtomicU64::new(0),
+            barrier: Barrier::new(n),
+            cur: (0..n).map(|_| AtomicU64::new(0)).collect(),
+            ops_done: AtomicU64::new(0),
+            directed: Directed {
+                a_in_window: AtomicBool::new(false),
+                b_holding: AtomicBool::new(false),
+                a_done: AtomicBool::new(false),
+                window_reached: AtomicBool::new(false),
+            },
+            cfg,
+        }
+    }
+
+    fn push(&self, e: u32) -> usize {
+        let mut l = self.log.lock();
+        l.push(e);
+        l.len()
+    }
+
+    fn viol(&self, assertion: &'static str, cause: &'static str, at: &'static str, thread: usize, page: usize, log_pos: usize) {
+        self.viol_total.fetch_add(1, Ordering::Relaxed);
+        let mut v = self.viols.lock();
+        if v.len() < 4 {
+            v.push(Viol { assertion, cause, at, thread, page, log_pos });
+        }
+    }
+
+    // The four monitor updates. They run while the calling thread holds the guard.
+    fn enter_w(&self, t: usize, pi: usize) {
+        let pos = self.push(ev(t, EV_ENTER_W, pi as u32));
+        let prev = self.occ[pi].fetch_add(W_ONE, Ordering::SeqCst);
+        if prev >> 32 != 0 {
+            self.viol("writers_le_1", "two_writers_on_page", "write_entry", t, pi, pos);
+        }
+        if prev & 0xFFFF_FFFF != 0 {
+            self.viol("writers_times_readers", "writer_and_reader_on_page", "write_entry", t, pi, pos);
+        }
+    }
+    fn exit_w(&self, t: usize, pi: usize) {
+        let pos = self.push(ev(t, EV_EXIT_W, pi as u32));
+        let prev = self.occ[pi].fetch_sub(W_ONE, Ordering::SeqCst);
+        if prev >> 32 != 1 {
+            self.viol("writers_le_1", "two_writers_on_page", "write_exit", t, pi, pos);
+        }
+        if prev & 0xFFFF_FFFF != 0 {
+            self.viol("writers_times_readers", "writer_and_reader_on_page", "write_exit", t, pi, pos);
+        }
+    }
+    fn enter_r(&self, t: usize, pi: usize) {
+        let pos = self.push(ev(t, EV_ENTER_R, pi as u32));
+        let prev = self.occ[pi].fetch_add(1, Ordering::SeqCst);
+        if prev >> 32 != 0 {
+            self.viol("writers_times_readers", "writer_and_reader_on_page", "read_entry", t, pi, pos);
+        }
+    }
+    fn exit_r(&self, t: usize, pi: usize) {
+        let pos = self.push(ev(t, EV_EXIT_R, pi as u32));
+        let prev = self.occ[pi].fetch_sub(1, Ordering::SeqCst);
+        if prev >> 32 != 0 {
+            self.viol("writers_times_readers", "writer_and_reader_on_page", "read_exit", t, pi, pos);
+        }
+    }
+}
+
+// ---- the yield hook ----------------------------------------------------------------------
+struct Tls {
+    idx: usize,
+    rng: Rng,
+    page: u32,
+    round: Arc<Round>,
+    role: u8, // directed rounds: 1 = A (parks in its first cleanup window), 2 = B
+    parked_once: bool,
+}
+
+thread_local! {
+    static TLS: RefCell<Option<Tls>> = RefCell::new(None);
+}
+
+fn set_page(p: u32) {
+    TLS.with(|t| {
+        if let Some(t) = t.borrow_mut().as_mut() {
+            t.page = p;
+        }
+    });
+}
+
+fn spin_for(us: u64) {
+    if MIRI {
+        std::thread::yield_now();
+        return;
+    }
+    let t0 = Instant::now();
+    let d = Duration::from_micros(us);
+    while t0.elapsed() < d {
+        std::hint::spin_loop();
+    }
+}
+
+/// wait (yielding) until `flag` is set; bounded both in time and in iterations
+fn wait_flag(flag: &AtomicBool, max: Duration) -> bool {
+    let t0 = Instant::now();
+    let mut it = 0u64;
+    loop {
+        if flag.load(Ordering::SeqCst) {
+            return true;
+        }
+        it += 1;
+        if MIRI {
+            if it > 400 {
+                return false;
+            }
+        } else if it % 64 == 0 && t0.elapsed() > max {
+            return false;
+        }
+        std::thread::yield_now();
+    }
+}
+
+fn hook(name: &'static str) {
+    TLS.with(|cell| {
+        let mut b = cell.borrow_mut();
+        let t = match b.as_mut() {
+            Some(t) => t,
+            None => return, // a thread that is not part of a round
+        };
+        let kind = match name {
+            "pl.read.got_entry" => EV_READ_GOT,
+            "pl.write.got_entry" => EV_WRITE_GOT,
+            "pl.cleanup.released" => EV_CLEANUP,
+            _ => EV_OTHER_HOOK,
+        };
+        let r = t.round.clone();
+        r.push(ev(t.idx, kind, t.page));
+        if r.inside.load(Ordering::Relaxed) >= 2 {
+            r.overlap.fetch_add(1, Ordering::Relaxed);
+        }
+        if r.cfg.directed != 0 {
+            if t.role == 1 && kind == EV_CLEANUP && !t.parked_once {
+                t.parked_once = true;
+                r.directed.a_in_window.store(true, Ordering::SeqCst);
+                // parked between `entry.release()` (ref_count 1 -> 0) and `self.locks.lock()`
+                if wait_flag(&r.directed.b_holding, Duration::from_millis(400)) {
+                    r.directed.window_reached.store(true, Ordering::SeqCst);
+                }
+            }
+            return;
+        }
+        let w = &r.cfg.w;
+        let total = w[0] + w[1] + w[2] + w[3];
+        let mut x = t.rng.below(total);
+        let mut act = 0;
+        for (i, wi) in w.iter().enumerate() {
+            if x < *wi {
+                act = i;
+                break;
+            }
+            x -= *wi;
+        }
+        if kind == EV_CLEANUP && act == 0 && r.cfg.cleanup_bias > 0 && t.rng.below(100) < r.cfg.cleanup_bias {
+            act = 1 + t.rng.below(3) as usize;
+        }
+        if MIRI && act > 1 {
+            act = 1;
+        }
+        r.hook_actions[act].fetch_add(1, Ordering::Relaxed);
+        match act {
+            0 => {}
+            1 => std::thread::yield_now(),
+            2 => {
+                let us = 1 + t.rng.below(50);
+                spin_for(us)
+            }
+            _ => {
+                let us = 1 + t.rng.below(200);
+                std::thread::sleep(Duration::from_micros(us))
+            }
+        }
+    });
+}
+
+// ---- workers -------------------------------------------------------------------------------
+fn hold(r: &Round, rng: &mut Rng) {
+    if r.cfg.hold == 0 {
+        return;
+    }
+    let x = rng.below(100);
+    if r.cfg.hold == 1 {
+        if x < 20 {
+            std::hint::spin_loop();
+        } else if x < 30 {
+            std::thread::yield_now();
+        }
+    } else if x < 30 {
+        std::thread::yield_now();
+    } else if x < 45 {
+        spin_for(1 + rng.below(20));
+    }
+}
+
+enum Intent<'a> {
+    None,
+    S(turdb::database::page_locks::TableIntentSharedGuard<'a>),
+    X(turdb::database::page_locks::TableIntentExclusiveGuard<'a>),
+}
+
+fn worker(r: &Arc<Round>, idx: usize, tseed: u64) {
+    let mut rng = Rng::new(tseed);
+    let cfg = &r.cfg;
+    let np = cfg.pages.len();
+    r.barrier.wait();
+    for op in 0..cfg.ops {
+        let opw = (op as u64) << 8;
+        r.cur[idx].store(opw | 1, Ordering::Relaxed);
+        let write = rng.below(100) < cfg.p_write;
+        let multi = write && np >= 2 && rng.below(100) < cfg.p_multi;
+        let pi = rng.below(np as u64) as usize;
+        let (tbl, pno) = cfg.pages[pi];
+        let intent = if rng.below(100) < cfg.p_table {
+            r.cur[idx].store(opw | 2, Ordering::Relaxed);
+            let g = if write { Intent::X(r.mgr.table_intent_exclusive(tbl)) } else { Intent::S(r.mgr.table_intent_shared(tbl)) };
+            r.intents.fetch_add(1, Ordering::Relaxed);
+            g
+        } else {
+            Intent::None
+        };
+        if multi {
+            // a subset of >= 2 distinct pages, given in arbitrary order (the call sorts them)
+            let mut sel: Vec<usize> = (0..np).collect();
+            rng.shuffle(&mut sel);
+            let k = rng.usize(2, np);
+            sel.truncate(k);
+            let req: Vec<(u32, u32)> = sel.iter().map(|i| cfg.pages[*i]).collect();
+            set_page(PAGE_MULTI);
+            r.push(ev(idx, EV_CALL_M, PAGE_MULTI));
+            r.cur[idx].store(opw | 3, Ordering::Relaxed);
+            r.inside.fetch_add(1, Ordering::Relaxed);
+            let gs = r.mgr.page_write_multi(&req);
+            r.inside.fetch_sub(1, Ordering::Relaxed);
+            for i in &sel {
+                r.enter_w(idx, *i);
+            }
+            hold(r, &mut rng);
+            for i in &sel {
+                r.exit_w(idx, *i);
+            }
+            r.cur[idx].store(opw | 4, Ordering::Relaxed);
+            r.inside.fetch_add(1, Ordering::Relaxed);
+            drop(gs);
+            r.inside.fetch_sub(1, Ordering::Relaxed);
+            r.push(ev(idx, EV_DROP_DONE, PAGE_MULTI));
+        } else if write {
+            set_page(pi as u32);
+            r.push(ev(idx, EV_CALL_W, pi as u32));
+            r.cur[idx].store(opw | 5, Ordering::Relaxed);
+            r.inside.fetch_add(1, Ordering::Relaxed);
+            let g = r.mgr.page_write(tbl, pno);
+            r.inside.fetch_sub(1, Ordering::Relaxed);
+            r.enter_w(idx, pi);
+            hold(r, &mut rng);
+            r.exit_w(idx, pi);
+            r.cur[idx].store(opw | 6, Ordering::Relaxed);
+            r.inside.fetch_add(1, Ordering::Relaxed);
+            drop(g);
+            r.inside.fetch_sub(1, Ordering::Relaxed);
+            r.push(ev(idx, EV_DROP_DONE, pi as u32));
+        } else {
+            set_page(pi as u32);
+            r.push(ev(idx, EV_CALL_R, pi as u32));
+            r.cur[idx].store(opw | 7, Ordering::Relaxed);
+            r.inside.fetch_add(1, Ordering::Relaxed);
+            let g = r.mgr.page_read(tbl, pno);
+            r.inside.fetch_sub(1, Ordering::Relaxed);
+            r.enter_r(idx, pi);
+            hold(r, &mut rng);
+            r.exit_r(idx, pi);
+            r.cur[idx].store(opw | 8, Ordering::Relaxed);
+            r.inside.fetch_add(1, Ordering::Relaxed);
+            drop(g);
+            r.inside.fetch_sub(1, Ordering::Relaxed);
+            r.push(ev(idx, EV_DROP_DONE, pi as u32));
+        }
+        match intent {
+            Intent::None => {}
+            _ => {
+                r.cur[idx].store(opw | 9, Ordering::Relaxed);
+                drop(intent);
+                r.intents.fetch_sub(1, Ordering::Relaxed);
+            }
+        }
+        r.ops_done.fetch_add(1, Ordering::Relaxed);
+    }
+    r.cur[idx].store(u64::MAX, Ordering::Relaxed);
+}
+
+/// Directed two-thread schedule around `PageLockShard::try_cleanup`.
+/// variant 1: B holds WRITE, A then asks WRITE; 2: B holds WRITE, A asks READ; 3: B holds READ, A asks WRITE.
+fn directed_worker(r: &Arc<Round>, idx: usize) {
+    let (tbl, pno) = r.cfg.pages[0];
+    let d = &r.directed;
+    let b_write = r.cfg.directed != 3;
+    let a_write = r.cfg.directed != 2;
+    set_page(0);
+    r.barrier.wait();
+    if idx == 0 {
+        // A: lock/unlock once; its guard drop takes ref_count 1 -> 0 and is parked by the hook
+        r.push(ev(0, EV_CALL_W, 0));
+        r.inside.fetch_add(1, Ordering::Relaxed);
+        let g = r.mgr.page_write(tbl, pno);
+        r.enter_w(0, 0);
+        r.exit_w(0, 0);
+        drop(g);
+        r.push(ev(0, EV_DROP_DONE, 0));
+        // A again: B is (still) inside its critical section now
+        if a_write {
+            r.push(ev(0, EV_CALL_W, 0));
+            let g = r.mgr.page_write(tbl, pno);
+            r.enter_w(0, 0);
+            r.exit_w(0, 0);
+            drop(g);
+        } else {
+            r.push(ev(0, EV_CALL_R, 0));
+            let g = r.mgr.page_read(tbl, pno);
+            r.enter_r(0, 0);
+            r.exit_r(0, 0);
+            drop(g);
+        }
+        r.inside.fetch_sub(1, Ordering::Relaxed);
+        r.push(ev(0, EV_DROP_DONE, 0));
+        d.a_done.store(true, Ordering::SeqCst);
+    } else {
+        wait_flag(&d.a_in_window, Duration::from_millis(400));
+        r.inside.fetch_add(1, Ordering::Relaxed);
+        // B: lock/unlock once (re-uses A's entry, takes it 0 -> 1 -> 0 and removes it from the map)
+        r.push(ev(1, EV_CALL_W, 0));
+        let g = r.mgr.page_write(tbl, pno);
+        r.enter_w(1, 0);
+        r.exit_w(1, 0);
+        drop(g);
+        r.push(ev(1, EV_DROP_DONE, 0));
+        // B: lock again (inserts a NEW entry) and keep holding it
+        if b_write {
+            r.push(ev(1, EV_CALL_W, 0));
+            let g = r.mgr.page_write(tbl, pno);
+            r.enter_w(1, 0);
+            d.b_holding.store(true, Ordering::SeqCst);
+            wait_flag(&d.a_done, Duration::from_millis(30));
+            r.exit_w(1, 0);
+            drop(g);
+        } else {
+            r.push(ev(1, EV_CALL_R, 0));
+            let g = r.mgr.page_read(tbl, pno);
+            r.enter_r(1, 0);
+            d.b_holding.store(true, Ordering::SeqCst);
+            wait_flag(&d.a_done, Duration::from_millis(30));
+            r.exit_r(1, 0);
+            drop(g);
+        }
+        r.inside.fetch_sub(1, Ordering::Relaxed);
+        r.push(ev(1, EV_DROP_DONE, 0));
+    }
+    r.ops_done.fetch_add(2, Ordering::Relaxed);
+    r.cur[idx].store(u64::MAX, Ordering::Relaxed);
+}
+
+// ---- running one round -----------------------------------------------------------------------
+struct RoundResult {
+    round_no: u64,
+    rseed: u64,
+    cfg: Cfg,
+    finished: bool,
+    stuck: Vec<(usize, u64, u64)>, // (thread, op index, phase) of threads that did not finish
+    panics: Vec<String>,
+    viols: Vec<Viol>,
+    viol_total: u64,
+    witness: Vec<Vec<String>>, // per recorded violation: the events on that page leading to it
+    entries_after: Option<(usize, usize)>,
+    fingerprint: u64,
+    yield_events: u64,
+    overlap: u64,
+    cleanup_windows_interleaved: u64,
+    hook_actions: [u64; 4],
+    ops: u64,
+    first_expiry: bool,
+    window_reached: bool,
+    wall_ms: f64,
+    full_log: Option<Vec<String>>,
+}
+
+fn phase_name(p: u64) -> &'static str {
+    match p {
+        1 => "before op",
+        2 => "in table_intent_*",
+        3 => "in page_write_multi",
+        4 => "dropping multi guards",
+        5 => "in page_write",
+        6 => "dropping write guard",
+        7 => "in page_read",
+        8 => "dropping read guard",
+        9 => "dropping table intent guard",
+        _ => "?",
+    }
+}
+
+fn run_round(round_no: u64, rseed: u64, cfg: &Cfg, timeout: Duration) -> RoundResult {
+    let t0 = Instant::now();
+    let round = Arc::new(Round::new(cfg.clone()));
+    let n = cfg.nthreads;
+    let (tx, rx) = mpsc::channel::<(usize, Result<(), String>)>();
+    let mut handles = vec![];
+    for i in 0..n {
+        let r = round.clone();
+        let tx = tx.clone();
+        let tseed = rseed ^ (i as u64 + 1).wrapping_mul(0xA24BAED4963EE407) ^ round_no.wrapping_mul(0x9FB21C651E98DF25);
+        let h = std::thread::Builder::new()
+            .stack_size(512 * 1024)
+            .spawn(move || {
+                TLS.with(|t| {
+                    *t.borrow_mut() = Some(Tls {
+                        idx: i,
+                        rng: Rng::new(tseed ^ 0x5bd1e995),
+                        page: 0,
+                        round: r.clone(),
+                        role: if r.cfg.directed != 0 { i as u8 + 1 } else { 0 },
+                        parked_once: false,
+                    })
+                });
+                let res = catch(|| {
+                    if r.cfg.directed != 0 {
+                        directed_worker(&r, i)
+                    } else {
+                        worker(&r, i, tseed)
+                    }
+                });
+                TLS.with(|t| *t.borrow_mut() = None);
+                let _ = tx.send((i, res));
+            })
+            .expect("spawn");
+        handles.push(h);
+    }
+    drop(tx);
+    let mut done = vec![false; n];
+    let mut panics = vec![];
+    let mut ndone = 0;
+    while ndone < n {
+        let left = timeout.checked_sub(t0.elapsed()).unwrap_or(Duration::ZERO);
+        let got = if MIRI { rx.recv().map_err(|_| ()) } else { rx.recv_timeout(left).map_err(|_| ()) };
+        match got {
+            Ok((i, res)) => {
+                done[i] = true;
+                ndone += 1;
+                if let Err(p) = res {
+                    panics.push(p);
+                }
+            }
+            Err(_) => break,
+        }
+    }
+    let finished = ndone == n;
+    let mut stuck = vec![];
+    if finished {
+        for h in handles {
+            let _ = h.join();
+        }
+    } else {
+        for i in 0..n {
+            if !done[i] {
+                let c = round.cur[i].load(Ordering::Relaxed);
+                stuck.push((i, c >> 8, c & 0xFF));
+            }
+        }
+        // the stuck threads are leaked; they only reference this round's private state
+    }
+    let log: Vec<u32> = round.log.lock().clone();
+    // schedule fingerprint: the order of (thread, yield point) events
+    let mut fp_bytes = Vec::with_capacity(log.len());
+    let mut yield_events = 0u64;
+    for e in &log {
+        let k = (e >> 8) & 0xFF;
+        if k <= EV_CLEANUP || k == EV_OTHER_HOOK {
+            fp_bytes.push(((e >> 16) as u8) << 4 | k as u8);
+            yield_events += 1;
+        }
+    }
+    let fingerprint = fnv(&fp_bytes);
+    // how often did another thread get an entry for the page while a thread sat between
+    // `release()` and the map lock (log order; informational)
+    let mut open: Vec<Option<u32>> = vec![None; n]; // page of the thread's open cleanup window
+    let mut cwi = 0u64;
+    let mut counted = vec![false; n];
+    for e in &log {
+        let (t, k, p) = ((e >> 16) as usize, (e >> 8) & 0xFF, e & 0xFF);
+        if t >= n {
+            continue;
+        }
+        match k {
+            EV_CLEANUP => {
+                open[t] = Some(p);
+                counted[t] = false;
+            }
+            EV_DROP_DONE | EV_CALL_R | EV_CALL_W | EV_CALL_M => open[t] = None,
+            EV_READ_GOT | EV_WRITE_GOT => {
+                for o in 0..n {
+                    if o != t && !counted[o] {
+                        if let Some(op) = open[o] {
+                            if op == p || op == PAGE_MULTI || p == PAGE_MULTI {
+                                cwi += 1;
+                                counted[o] = true;
+                            }
+                        }
+                    }
+                }
+            }
+            _ => {}
+        }
+    }
+    let viols: Vec<Viol> = round.viols.lock().clone();
+    let mut witness = vec![];
+    for v in &viols {
+        let end = v.log_pos.min(log.len());
+        let mut evs: Vec<String> = vec![];
+        let mut i = end;
+        while i > 0 && evs.len() < 40 {
+            i -= 1;
+            let p = log[i] & 0xFF;
+            if p == v.page as u32 || p == PAGE_MULTI {
+                evs.push(ev_fmt(log[i]));
+            }
+        }
+        evs.reverse();
+        witness.push(evs);
+    }
+    let entries_after = if finished { catch(|| round.mgr.verif_entry_counts()).ok() } else { None };
+    let full_log = if cfg.directed != 0 { Some(log.iter().map(|e| ev_fmt(*e)).collect()) } else { None };
+    RoundResult {
+        round_no,
+        rseed,
+        cfg: cfg.clone(),
+        finished,
+        stuck,
+        panics,
+        viol_total: round.viol_total.load(Ordering::Relaxed),
+        viols,
+        witness,
+        entries_after,
+        fingerprint,
+        yield_events,
+        overlap: round.overlap.load(Ordering::Relaxed),
+        cleanup_windows_interleaved: cwi,
+        hook_actions: [
+            round.hook_actions[0].load(Ordering::Relaxed),
+            round.hook_actions[1].load(Ordering::Relaxed),
+            round.hook_actions[2].load(Ordering::Relaxed),
+            round.hook_actions[3].load(Ordering::Relaxed),
+        ],
+        ops: round.ops_done.load(Ordering::Relaxed),
+        first_expiry: false,
+        window_reached: round.directed.window_reached.load(Ordering::SeqCst),
+        wall_ms: t0.elapsed().as_secs_f64() * 1000.0,
+        full_log,
+    }
+}
+
+static SOLO: RwLock<()> = RwLock::new(());
+
+/// run a round; on watchdog expiry run the same seed once more, alone
+fn run_round_guarded(round_no: u64, rseed: u64, cfg: &Cfg, timeout: Duration) -> RoundResult {
+    let first = {
+        let _g = SOLO.read();
+        run_round(round_no, rseed, cfg, timeout)
+    };
+    if first.finished {
+        return first;
+    }
+    let _g = SOLO.write();
+    // alone (all other lanes paused) and with a much more generous limit
+    let mut second = run_round(round_no, rseed, cfg, timeout * 6);
+    second.first_expiry = true;
+    if !second.finished {
+        // keep what the first attempt saw as well
+        second.panics.extend(first.panics);
+    }
+    second
+}
+
+// ---- driver ----------------------------------------------------------------------------------
+pub fn run(a: &Args) -> i32 {
+    let mut ctx = Ctx::new(
+        "C36",
+        &a.tier,
+        a.seed,
+        "exploration",
+        "rounds of 2-8 real threads doing page_read/page_write/page_write_multi (+ table intent locks) on 1-3 hot pages of a fresh PageLockManager, schedule perturbed at the library's yield points (nothing/yield/spin 1-50us/sleep 1-200us from a per-thread PRNG), plus directed 2-thread rounds that park one thread in the try_cleanup window; occupancy monitor updated inside the critical section; distinct_nontrivial = distinct (round structure, schedule fingerprint) of rounds in which a yield point was reached while >= 2 threads were inside lock-manager calls",
+    );
+    let quick = ctx.quick();
+    turdb::verif::set_yield_hook(Some(Arc::new(hook)));
+    let mut master = Rng::derive(a.seed, 36);
+    let timeout = Duration::from_secs(20);
+
+    let (max_rounds, budget_s, lanes, ndirected): (u64, f64, usize, u64) = if MIRI {
+        (4, 1e9, 1, 2)
+    } else if quick {
+        (3000, 30.0, 4, 9)
+    } else {
+        (60000, 400.0, 4, 60)
+    };
+    let deadline = Instant::now() + Duration::from_secs_f64(budget_s.min(1e8));
+
+    let mut fingerprints: HashSet<u64> = HashSet::new();
+    let mut trivial_rounds = 0u64;
+    let mut slowest_ms = 0f64;
+    let mut sampled_random = 0;
+    let mut sampled_viol = 0;
+
+    // results are folded into ctx here (single owner of ctx)
+    let mut absorb = |ctx: &mut Ctx, res: RoundResult| {
+        ctx.eval();
+        let directed = res.cfg.directed != 0;
+        ctx.count(if directed { "rounds_directed" } else { "rounds_random" }, 1);
+        ctx.count("lock_ops", res.ops);
+        ctx.count("yield_point_events", res.yield_events);
+        ctx.count("yield_points_with_overlap", res.overlap);
+        ctx.count("cleanup_windows_interleaved", res.cleanup_windows_interleaved);
+        ctx.count("hook_nothing", res.hook_actions[0]);
+        ctx.count("hook_yield", res.hook_actions[1]);
+        ctx.count("hook_spin", res.hook_actions[2]);
+        ctx.count("hook_sleep", res.hook_actions[3]);
+        if res.wall_ms > slowest_ms {
+            slowest_ms = res.wall_ms;
+        }
+        if res.first_expiry {
+            ctx.count("watchdog_single_expiry", 1);
+        }
+        if !res.finished {
+            let st: Vec<Value> = res.stuck.iter().map(|(t, op, ph)| json!({"thread": t, "op": op, "where": phase_name(*ph)})).collect();
+            let place = res.stuck.first().map(|s| phase_name(s.2)).unwrap_or("?");
+            ctx.violation(
+                "progress",
+                "C36/progress/round_stuck",
+                json!({"round": res.round_no, "round_seed": res.rseed, "cfg": res.cfg.to_json(), "stuck_threads": st, "first_stuck_in": place,
+                       "note": "watchdog expired twice: 20 s in the normal run and 120 s when the same round seed was re-run alone on an otherwise paused harness"}),
+            );
+            return;
+        }
+        let nontrivial = if directed { res.window_reached } else { res.overlap > 0 };
+        if nontrivial {
+            fingerprints.insert(res.fingerprint);
+            ctx.nontrivial(res.cfg.structural_hash() ^ res.fingerprint.rotate_left(17));
+            if res.cfg.nthreads >= 4 {
+                ctx.count("rounds_nontrivial_ge4_threads", 1);
+            }
+        } else {
+            trivial_rounds += 1;
+            if directed {
+                ctx.count("directed_window_not_reached", 1);
+            }
+        }
+        for p in &res.panics {
+            let site = crate::report::panic_site(p);
+            ctx.violation("no_panic", &format!("C36/no_panic/{}", site), json!({"round": res.round_no, "round_seed": res.rseed, "cfg": res.cfg.to_json(), "panic": p}));
+        }
+        ctx.count("occupancy_violations", res.viol_total);
+        if res.viol_total > 0 {
+            ctx.count("rounds_with_occupancy_violation", 1);
+        }
+        for (v, w) in res.viols.iter().zip(res.witness.iter()) {
+            let cause = if directed { "stale_cleanup_removes_live_entry" } else { v.cause };
+            let sig = format!("C36/{}/{}", v.assertion, cause);
+            let mut detail = json!({
+                "round": res.round_no, "round_seed": res.rseed, "cfg": res.cfg.to_json(),
+                "page": res.cfg.pages[v.page], "detected_at": v.at, "detected_by_thread": v.thread,
+                "cleanup_windows_interleaved_in_round": res.cleanup_windows_interleaved,
+                "events_on_page_before_detection": w,
+            });
+            if let Some(l) = &res.full_log {
+                detail["full_event_order"] = json!(l);
+            }
+            ctx.violation(v.assertion, &sig, detail);
+            if sampled_viol < 2 {
+                sampled_viol += 1;
+                ctx.sample(json!({"kind": if directed {"directed round with violation"} else {"random round with violation"}, "cfg": res.cfg.to_json(), "sig": sig, "events": res.full_log.clone().unwrap_or_else(|| w.clone())}));
+            }
+        }
+        if let Some((p, t)) = res.entries_after {
+            if p != 0 {
+                ctx.violation("tables_empty_after_quiescence", "C36/tables_empty_after_quiescence/page_entries_left", json!({"round": res.round_no, "round_seed": res.rseed, "cfg": res.cfg.to_json(), "page_entries": p, "table_entries": t}));
+            }
+            if t != 0 {
+                ctx.violation("tables_empty_after_quiescence", "C36/tables_empty_after_quiescence/table_entries_left", json!({"round": res.round_no, "round_seed": res.rseed, "cfg": res.cfg.to_json(), "page_entries": p, "table_entries": t}));
+            }
+            ctx.count("quiescence_checks", 1);
+        } else {
+            ctx.violation("tables_empty_after_quiescence", "C36/tables_empty_after_quiescence/accessor_panicked", json!({"round": res.round_no}));
+        }
+        if !directed && sampled_random < 2 && res.viol_total == 0 {
+            sampled_random += 1;
+            ctx.sample(json!({"kind": "random round", "cfg": res.cfg.to_json(), "lock_ops": res.ops, "yield_point_events": res.yield_events, "yield_points_with_overlap": res.overlap,
+                              "cleanup_windows_interleaved": res.cleanup_windows_interleaved, "schedule_fingerprint": format!("{:016x}", res.fingerprint), "wall_ms": res.wall_ms}));
+        }
+    };
+
+    // directed rounds first (sequential)
+    for k in 0..ndirected {
+        let cfg = Cfg {
+            nthreads: 2,
+            pages: vec![(1 + master.below(4) as u32, master.below(5000) as u32)],
+            ops: 2,
+            p_write: 100,
+            p_multi: 0,
+            p_table: 0,
+            w: [1, 0, 0, 0],
+            cleanup_bias: 0,
+            hold: 0,
+            directed: 1 + (k % 3) as u8,
+        };
+        let rseed = master.next();
+        let res = run_round_guarded(1_000_000 + k, rseed, &cfg, timeout);
+        absorb(&mut ctx, res);
+    }
+
+    // random rounds on parallel lanes
+    let next = Arc::new(AtomicU64::new(0));
+    let base_seed = master.next();
+    let (tx, rx) = mpsc::channel::<RoundResult>();
+    let mut lane_handles = vec![];
+    let thorough = !quick;
+    for _ in 0..lanes {
+        let next = next.clone();
+        let tx = tx.clone();
+        lane_handles.push(std::thread::spawn(move || loop {
+            let no = next.fetch_add(1, Ordering::SeqCst);
+            if no >= max_rounds || Instant::now() >= deadline {
+                break;
+            }
+            let mut rr = Rng::new(base_seed ^ no.wrapping_mul(0xD6E8FEB86659FD93));
+            let cfg = gen_cfg(&mut rr, thorough);
+            let rseed = rr.next();
+            let res = run_round_guarded(no, rseed, &cfg, timeout);
+            if tx.send(res).is_err() {
+                break;
+            }
+        }));
+    }
+    drop(tx);
+    for res in rx {
+        absorb(&mut ctx, res);
+    }
+    for h in lane_handles {
+        let _ = h.join();
+    }
+    turdb::verif::set_yield_hook(None);
+
+    ctx.count("rounds_trivial_no_overlap", trivial_rounds);
+    ctx.extra.insert("distinct_schedule_fingerprints".into(), json!(fingerprints.len()));
+    ctx.extra.insert("slowest_round_ms".into(), json!((slowest_ms * 10.0).round() / 10.0));
+    ctx.extra.insert("watchdog_s".into(), json!([timeout.as_secs(), timeout.as_secs() * 6]));
+    ctx.extra.insert("lanes".into(), json!(lanes));
+    ctx.assumptions.push("schedules are sampled by real threads with injected delays, not enumerated; a seed fixes workload and delays, not the OS schedule".into());
+    ctx.assumptions.push("table intent locks: only non-blocking acquisition and cleanup are checked, because the documented conflict (table-exclusive) has no acquisition API".into());
+    ctx.finish()
 }
